@@ -8,6 +8,7 @@ require (
 	github.com/gorilla/websocket v1.4.2
 	go.uber.org/zap v1.13.0
 	golang.org/x/crypto v0.49.0
+	golang.org/x/sys v0.42.0
 	google.golang.org/grpc v1.79.3
 	gopkg.in/yaml.v2 v2.4.0
 )
@@ -43,7 +44,6 @@ require (
 	go.uber.org/mock v0.6.0 // indirect
 	go.uber.org/multierr v1.9.0 // indirect
 	golang.org/x/net v0.52.0 // indirect
-	golang.org/x/sys v0.42.0 // indirect
 	golang.org/x/text v0.35.0 // indirect
 	google.golang.org/genproto v0.0.0-20230410155749-daa745c078e1 // indirect
 	google.golang.org/protobuf v1.36.11 // indirect
